@@ -103,8 +103,19 @@ pub fn run_c19(_p: &str, tier: Tier, run_seed: u64, _ov: &Value) -> RunOut {
                     std::fs::rename(&tmp, &path).unwrap();
                 }
                 let new_len = std::fs::metadata(&path).unwrap().len();
-                let tpol = *rng.pick(&["advance-seconds", "advance-subsecond", "preserved", "advance-seconds"]);
+                let tpol = *rng.pick(&["advance-seconds", "advance-subsecond", "preserved", "advance-seconds", "same-second-whole"]);
                 mtime = match tpol {
+                    // a whole-second timestamp inside the SAME second (what `touch -d`, tar or an
+                    // rsync from a one-second filesystem leave behind): the start of the second,
+                    // or, when the time already is one, a sub-second instant of it
+                    "same-second-whole" => {
+                        let d = mtime.duration_since(SystemTime::UNIX_EPOCH).unwrap();
+                        if d.subsec_nanos() == 0 {
+                            mtime + Duration::from_nanos(1 + rng.below(999_999_998))
+                        } else {
+                            SystemTime::UNIX_EPOCH + Duration::from_secs(d.as_secs())
+                        }
+                    }
                     "advance-seconds" => mtime + Duration::from_secs(2 + rng.below(100)),
                     "advance-subsecond" => {
                         // stay inside the same whole second
